@@ -26,6 +26,16 @@ Proof.
   pose proof advance_pure as P. rewrite forallb_forall in P. apply (P _ I).
 Qed.
 
+(* ... and what advance returns is a scalar / None or an object created during the call — never an
+   alias of the cursor it was given or of any other existing object *)
+Theorem C11_advance_returns_no_alias :
+  forall f i, In (f, i) advance_methods ->
+  forall n vs h h' v, callsem py_table n f vs h h' (ORet v) -> forall b, v = VRef b -> List.length h <= b.
+Proof.
+  intros f i I n vs h h' v C. eapply returns_fresh; eauto.
+  pose proof advance_fresh as P. rewrite forallb_forall in P. apply (P _ I).
+Qed.
+
 (* the BinaryState helpers: copy / end / real_chunk / create / advance write nothing;
    advance_on_success writes only self.instances *)
 Theorem C11_binary_state :
